@@ -557,12 +557,15 @@ class ReceiveV3(V3Unit):
         mk = get_func(rt, interp, "puresnmp.plugins.mpm:create")
         mproc = interp.call(mk, [3, Opaque("handler"), PDict()], {})
         exc = pdu = content = None
+        before = dict(mproc.fields)
         try:
             pdu = interp.call(rt.getattr(interp, mproc, "decode"), [raw, creds], {})
             content = rt.getattr(interp, pdu, "value")
         except PyExc as pe:
             exc = pe.obj
         T = self.target
+        if "C20" in self.props:
+            self.frame_c20(interp, mproc, before, T)
         USM = "puresnmp_plugins.security.usm:UserSecurityModel.process_incoming_message"
         P = self.props
 
